@@ -420,6 +420,7 @@ fn pipeline_family(mut chk: Check) -> ! {
         // ... and applications whose fallible singleton constructors share a function name (names of generated items)
         for r in 0..(if tier == Tier::Quick { 1 } else { 6 }) {
             rounds.push((0..k_per_round).map(|k| genr::build_naming_stress(seed ^ ((r * 64 + k + 7) as u64).wrapping_mul(0x9e3779b97f4a7c15))).collect());
+            rounds.push((0..k_per_round).map(|k| genr::build_order_stress(seed ^ ((r * 64 + k + 11) as u64).wrapping_mul(0x9e3779b97f4a7c15))).collect());
         }
     }
     let rounds = rounds;
@@ -1599,7 +1600,7 @@ fn determinism_check(mut chk: Check) -> ! {
     chk.ev.rule = "accepted generated applications (pipeline and routing families) x a history of compiler runs on the same output crate: generate; generate again; --check; delete the output and regenerate in fresh processes with RAYON_NUM_THREADS in {1,2,16}; perturb one byte of lib.rs then --check, then regenerate; (thorough) regenerate with a cold documentation cache and with the cache of another lane. Oracle: Cargo.toml, src/lib.rs and the diagnostics graph are byte-identical across all runs; re-running does not touch mtimes; --check exits 0 iff nothing would change, exits non-zero after the perturbation, and never modifies a file. non-trivial = history with >=4 generating runs on an application with >=3 routes or >=5 constructors; distinct = distinct spec".into();
     chk.ev.assume("each compiler run is a fresh process (fresh hash seeds); thread interleavings are sampled through RAYON_NUM_THREADS, not enumerated");
     let (n_apps, lanes) = match tier {
-        Tier::Quick => (18usize, 6usize),
+        Tier::Quick => (30usize, 6usize),
         Tier::Thorough => (240, 6),
     };
     let n_apps = chk.settings.extra.get("cases").and_then(|c| c.parse().ok()).unwrap_or(n_apps);
@@ -1613,8 +1614,14 @@ fn determinism_check(mut chk: Check) -> ! {
     }
     // every sixth application is a naming-stress application (several same-named fallible singleton constructors)
     for i in 0..specs.len() {
+        let mix = chk.settings.sub_seed("naming") ^ (i as u64).wrapping_mul(0x9e3779b97f4a7c15);
         if i % 6 == 4 {
-            specs[i] = genr::build_naming_stress(chk.settings.sub_seed("naming") ^ (i as u64).wrapping_mul(0x9e3779b97f4a7c15));
+            specs[i] = genr::build_naming_stress(mix);
+        } else if i % 6 == 2 || i % 6 == 5 {
+            // several independent borrow-then-move pairs in one call graph (evaluation order chosen by the compiler)
+            specs[i] = genr::build_order_stress(mix);
+        } else if i % 6 == 0 {
+            specs[i] = genr::build_stage_stress(mix);
         }
     }
     let cold = tier == Tier::Thorough;
@@ -1747,7 +1754,20 @@ fn determinism_history(lane: &engine::Lane, k: usize, other: usize, cold: bool) 
     // 5. perturb one byte, --check must notice and must not repair
     let lib = dir.join("src/lib.rs");
     let mut content = std::fs::read(&lib).map_err(|e| ("infra".to_string(), e.to_string()))?;
-    content.push(b' ');
+    // (how the file is made stale depends on the application: one more byte, or one byte replaced -
+    // same length - at the very end, in the middle or at the start)
+    let how = (content.len() / 7 + k) % 4;
+    let pos = match how {
+        1 => content.len().saturating_sub(2),
+        2 => content.len() / 2,
+        _ => 0,
+    };
+    if how == 0 || content.is_empty() {
+        content.push(b' ');
+    } else {
+        content[pos] = if content[pos] == b'x' { b'y' } else { b'x' };
+    }
+    labels.push(format!("stale:{}", ["one-more-byte", "same-length-last-bytes", "same-length-middle", "same-length-first-byte"][how]));
     std::fs::write(&lib, &content).map_err(|e| ("infra".to_string(), e.to_string()))?;
     let fpert = fp();
     let vc2 = round::verdict_k(lane, k, k, true, &[], None);
